@@ -384,13 +384,32 @@ def build_sel(t):
     raise ValueError(k)
 
 
-def build_cons(cons, vals=None, flags=None):
+def build_cons(cons, vals=None, flags=None, form=0):
     """constraint entries [{p, v, f}] -> ChoiceMap.  f: '-' plain value, 'T'/'F' Mask(value, flag).
-    vals: optional (possibly traced) values overriding c['v']; flags: optional traced flags."""
+    vals: optional (possibly traced) values overriding c['v']; flags: optional traced flags.
+    form 0: one entry per address (C[i, 'x'].set(v));  form 1: entries that differ only in their leading index are
+    given as ONE array-indexed entry C[jnp.array([i_k, ..]), 'x'].set(stacked values), indices in descending order."""
     jax, jnp, genjax = _jx()
     from genjax import ChoiceMapBuilder as C, Mask, ChoiceMap
     chm = ChoiceMap.empty()
+    done = set()
+    if form == 1:
+        groups = {}
+        for j, c in enumerate(cons):
+            if c["f"] == "-" and c["p"] and c["p"][0].isdigit():
+                groups.setdefault(tuple(c["p"][1:]), []).append(j)
+        for suffix, js in groups.items():
+            if len(js) < 2:
+                continue
+            js = sorted(js, key=lambda j: -int(cons[j]["p"][0]))
+            idx = jnp.array([int(cons[j]["p"][0]) for j in js], dtype=jnp.int32)
+            vs = jnp.stack([vals[j] if vals is not None else jnp.array(cons[j]["v"], dtype=jnp.int32) for j in js])
+            pp = (idx,) + path_py(list(suffix))
+            chm = chm | C[pp].set(vs)
+            done.update(js)
     for j, c in enumerate(cons):
+        if j in done:
+            continue
         pp = path_py(c["p"])
         v = vals[j] if vals is not None else jnp.array(c["v"], dtype=jnp.int32)
         if c["f"] in ("T", "F"):
